@@ -847,8 +847,8 @@ def parse_xsd(root):
             continue
         for el in seqs[0]:
             kl = el.attrib.get('name')
-            if el.tag != XS + 'element' or el.attrib.get('minOccurs') != '0' or el.attrib.get('maxOccurs') != 'unbounded':
-                junk.append('class element %r of unexpected shape' % kl)
+            if el.tag != XS + 'element':
+                junk.append('unexpected %s among the class elements' % el.tag)
             if kl in classes:
                 junk.append('class element %r declared twice' % kl)
             attrs = []
@@ -1129,7 +1129,7 @@ class Builder(object):
 
     def cls(self, kl, home, attrs, ids=None):
         '''attrs: [(name, type name or id, kind)...]; ids: {oid: [attr names]} (default: I1 = first attribute).'''
-        c = Cls(id=self.new_id(), name=kl, kl=kl, numb=len(self.d.classes) + 1, home=home, attrs=[],
+        c = Cls(id=self.new_id(), name='Class ' + kl, kl=kl, numb=len(self.d.classes) + 1, home=home, attrs=[],
                 ids={0: [], 1: [], 2: []})
         for spec in attrs:
             name, ty = spec[0], spec[1]
@@ -1354,9 +1354,9 @@ class World(object):
             self.d.conts[elem].parent = home
 
     def e_rename_class(self, obj, kl):
-        self.update('O_OBJ', dict(Obj_ID=obj), Key_Lett=kl, Name=kl)
-        c = self.d.cls(obj)
-        c.kl = c.name = kl
+        '''New key letters (the class name proper, O_OBJ.Name, stays).'''
+        self.update('O_OBJ', dict(Obj_ID=obj), Key_Lett=kl)
+        self.d.cls(obj).kl = kl
 
     def e_rename_comp(self, comp, name):
         self.update('C_C', dict(Id=comp), Name=name)
